@@ -12,3 +12,14 @@ func verifAt(point string) {
 		h(point)
 	}
 }
+
+// VerifGateHook, when set by a verification harness, is called by AwaitGateCondition right before it
+// returns, still under the gate's lock, with the state the decision to return was taken in.
+// It must not block.
+var VerifGateHook func(arrived, count uint16, canceled bool)
+
+func verifGateReturn(arrived, count uint16, canceled bool) {
+	if h := VerifGateHook; h != nil {
+		h(arrived, count, canceled)
+	}
+}
